@@ -581,6 +581,16 @@ class Program:
         self._auto_inline = out
         return out
 
+    def is_new_type(self, path):
+        """an ADT that the baseline tree does not have (introduced by a refactoring)"""
+        if not hasattr(self, "_base_adts"):
+            import json
+            import os
+            pth = os.path.join(os.path.dirname(os.path.abspath(__file__)), "baseline_functions.json")
+            with open(pth) as f:
+                self._base_adts = set(json.load(f).get("adts", []))
+        return path not in self._base_adts
+
     def roots_of(self, name):
         """Non-helper functions that reach `name` through chains of refactoring helpers (the function itself
         when it is not such a helper)."""
